@@ -183,6 +183,9 @@ func RunLockstepOpt(addr string, w *model.World, reqs []wire.Req, watchdog time.
 		}
 		if o.Closed {
 			res.ClosedAt = i
+			if o.ClosedEarlier && i > 0 {
+				res.ClosedAt = i - 1
+			}
 			break
 		}
 	}
@@ -202,6 +205,9 @@ func RunLockstepOpt(addr string, w *model.World, reqs []wire.Req, watchdog time.
 	return res
 }
 
+// abortFn is set by Main: it reports that the campaign already recorded plenty of violations.
+var abortFn func() bool
+
 // ParallelDo runs fn(i) for i in [0,n) on k goroutines.
 func ParallelDo(n, k int, fn func(i int)) {
 	if k < 1 {
@@ -214,6 +220,9 @@ func ParallelDo(n, k int, fn func(i int)) {
 		go func() {
 			defer wg.Done()
 			for i := range ch {
+				if abortFn != nil && abortFn() {
+					continue
+				}
 				fn(i)
 			}
 		}()
